@@ -161,7 +161,7 @@ def strip_closures(path):
     return re.sub(r"(::\{closure#\d+\})+", "", path)
 
 
-def panic_sites(prog, chk, reach):
+def panic_sites(prog, chk, reach, floor=250):
     D.PROG = prog
     sites = panics.inventory(prog, reach)
     table = load_table("panic_allow.json")
@@ -340,7 +340,8 @@ def panic_sites(prog, chk, reach):
                 f"nor by the reviewed table; on input-derived data this crashes the transform. If it is safe, add a line to policy/tables/panic_allow.json "
                 f"(function={body.path!r}, kind={s.kind!r}, callee={s.what!r}) with the reason.",
             )
-    chk.floor("A2.panic-site", len(sites), 250, "panic-capable site in reachable code")
+    if floor:
+        chk.floor("A2.panic-site", len(sites), floor, "panic-capable site in reachable code")
     chk.note(f"panic sites: {len(sites)} total, {n_rule} discharged by rule, {n_table} by table")
     global LAST_ALLOW
     LAST_ALLOW = allow
